@@ -42,6 +42,25 @@ COMPONENTS = {
     "stub": ["subprocess.Popen (fake peers: brute-force solver + output "
              "shaper + fault plan)"],
 }
+MANIFEST = {
+    "text": "Seeded simulation of the solver bridge against fake solver "
+            "peers: random formulas (<=10 variables), sets of installed "
+            "solvers, call arguments and output shapes; faults of a failing "
+            "solver are injected (exec failure after probe, no output, "
+            "garbage, s UNKNOWN, non-ASCII, missing/empty/garbage result "
+            "file) and the death of the solver is enumerated at every byte "
+            "offset of its output for each sampled workload. Verdicts are "
+            "compared with a brute-force reference; sampling plus "
+            "per-workload fault enumeration, not proof.",
+    "design_ref": "DESIGN.md 4.12",
+    "note": "Peers are stubs following the documented convention table; "
+            "real solver binaries, pipes and process reaping are outside "
+            "the simulation. Trusted: the brute-force reference solver and "
+            "the independent DIMACS reader in detsim/refmodels/cnfref.py.",
+    "technique": "deterministic simulation with fault injection (fake "
+                 "subprocess peers, seeded fault plans, enumerated kill "
+                 "offsets)",
+}
 CONFIGS = {
     "quick": [("nofault", 14000), ("failing", 9000), ("extended", 2000)],
     "thorough": [("nofault", 5), ("failing", 4), ("extended", 1)],
